@@ -158,6 +158,9 @@ def gen_files(rng, dotted=False):
             q = rng.choice(paths)
             body.append(f"def g{idx}():\n    import {modname[q]}\n    return 0")
         text = "\n".join(lines + body)
+        if rng.random() < 0.04:
+            text = "\n".join(lines + [rng.choice(["big = 0x" + "f" * 6000, "bits = 0b" + "1" * 20000,
+                                                  "if a == 0:\n    pass\n" + "".join(f"elif a == {i}:\n    pass\n" for i in range(1, 1300))])])
         if rng.random() < 0.1:
             text = ""  # empty file
         elif rng.random() < 0.05:
@@ -601,6 +604,10 @@ def fixed_dirs():
                     "pkg/q.py": "def g():\n    return 1\n", "pkg/sub/n.py": "from pkg import q\nimport q\n",
                     "q.py": "import pkg.m\nimport unknown\n", "top.py": "from pkg.sub import n\nfrom pkg.sub.n import z\n"}),
         ("empty", {"a.py": "", "b.py": "import a\n"}),
+        # valid programs whose flattening fails (huge literals, 1500-branch elif chain): reported, never aborting (fix d1e6a10)
+        ("unflattenable", {"a.py": "import b\nx = 1\n", "b.py": "y = 2\n", "big.py": "x = 0x" + "f" * 6000 + "\n",
+                           "bits.py": "import a\nw = 0b" + "1" * 20000 + "\n",
+                           "chain.py": "if a == 0:\n    pass\n" + "".join(f"elif a == {i}:\n    pass\n" for i in range(1, 1500))}),
         ("odd-chars-1", {"a.py": "import b\n" + ODD_BODY[0] + "\n", "b.py": ODD_BODY[6] + "\n" + ODD_BODY[2] + "\n",
                          "c.py": "import a\n" + ODD_BODY[10] + "\n"}),
         ("odd-chars-2", {"a.py": ODD_BODY[1] + "\nimport b\n", "b.py": ODD_BODY[4] + "\n" + ODD_BODY[11] + "\n" + ODD_BODY[5] + "\n",
